@@ -10,6 +10,7 @@ import (
 	"go/parser"
 	"go/token"
 	"os"
+	"os/exec"
 	"path/filepath"
 	"sort"
 	"strings"
@@ -283,7 +284,7 @@ func emitShipped(repo, out string) error {
 
 func init() {
 	props["C18"] = func(c *Ctx) {
-		c.Res.Rule = "the finite set is enumerated completely: every directory with a radius-dict-gen go:generate directive (27 rfc*, 4 vendors, internal/saltencrypttest) plus the debug package. For each package the dictionary checked in next to it is parsed with the directive's options (IgnoreIdenticalAttributes, -package, -ref, -ignore), Generate is run, and every top-level declaration of the result is compared by name and by canonical syntax (node kinds, identifiers, operators, literal VALUES; no comments, no layout) with the checked-in generated.go, together with its build-constraint lines and every declaration contributed by any other non-test Go file the default build context compiles into the same package (there must be none); generated.go files without a directive and directives without output are reported. debug.IncludedDictionary is compared entry by entry with parse+Merge of the seven dictionaries its directive names, read from the copies checked in under rfcNNNN/. non-trivial = declaration compared"
+		c.Res.Rule = "the finite set is enumerated completely: every directory with a radius-dict-gen go:generate directive (27 rfc*, 4 vendors, internal/saltencrypttest) plus the debug package. For each package the dictionary checked in next to it is parsed with the directive's options (IgnoreIdenticalAttributes, -package, -ref, -ignore), Generate is run (and, separately, the repository's command cmd/radius-dict-gen is built from the working tree and run in the package directory with the directive's own arguments, output redirected), and every top-level declaration of the result is compared by name and by canonical syntax (node kinds, identifiers, operators, literal VALUES; no comments, no layout) with the checked-in generated.go, together with its build-constraint lines and every declaration contributed by any other non-test Go file the default build context compiles into the same package (there must be none); generated.go files without a directive and directives without output are reported. debug.IncludedDictionary is compared entry by entry with parse+Merge of the seven dictionaries its directive names, read from the copies checked in under rfcNNNN/. non-trivial = declaration compared"
 		pkgs := collectShipped(c.Repo)
 		c.Res.Exhaustive = true
 		have := map[string]bool{}
@@ -325,6 +326,73 @@ func init() {
 			}
 			c.Count("package", p.name)
 		}
+		// the repository's own command (cmd/radius-dict-gen), built from the working tree and run in each package
+		// directory with the arguments of that package's directive, only the output redirected: it must succeed and
+		// write what the generator library produced above
+		if tmp, err := os.MkdirTemp("", "c18cmd"); err == nil {
+			bin := filepath.Join(tmp, "radius-dict-gen")
+			bc := exec.Command("go", "build", "-o", bin, "./cmd/radius-dict-gen")
+			bc.Dir = c.Repo
+			if out, err := bc.CombinedOutput(); err != nil {
+				c.Fail("spec", "cmd/radius-dict-gen", "c18-command", "go build ./cmd/radius-dict-gen", trunc(string(out), 1500), "builds", "the repository's generator command must build")
+			} else {
+				byName := map[string]shippedPkg{}
+				for _, p := range pkgs {
+					byName[p.name] = p
+				}
+				for _, s := range findSpecs(c.Repo) {
+					rel, _ := filepath.Rel(c.Repo, s.Dir)
+					outFile := filepath.Join(tmp, "out.go")
+					os.Remove(outFile)
+					args := append([]string(nil), s.Args...)
+					for i := range args {
+						if args[i] == "-output" && i+1 < len(args) {
+							args[i+1] = outFile
+						}
+					}
+					gc := exec.Command(bin, args...)
+					gc.Dir = s.Dir
+					out, err := gc.CombinedOutput()
+					what := rel + ": radius-dict-gen " + strings.Join(s.Args, " ")
+					c.Count("command", rel)
+					if err != nil {
+						c.Fail("spec", rel, "c18-command", what, trunc(err.Error()+": "+string(out), 1500), "writes the package", "the checked-in package is what the repository's generator produces with the checked-in go:generate options: the directive must run")
+						continue
+					}
+					src, err := os.ReadFile(outFile)
+					if err != nil {
+						c.Fail("spec", rel, "c18-command", what, err.Error(), "writes the package", "the directive must write its output")
+						continue
+					}
+					es, err := declEntries(src, "generated.go")
+					if err != nil {
+						c.Fail("spec", rel, "c18-command", what, err.Error(), "Go source", "")
+						continue
+					}
+					want := byName[rel].shipped
+					wm := map[string]string{}
+					for _, e := range want {
+						wm[e.name] = e.canon
+					}
+					bad := ""
+					for _, e := range es {
+						if g, ok := wm[e.name]; !ok {
+							bad = e.name + " is produced by the command and missing from the checked-in file"
+						} else if g != e.canon {
+							bad = e.name + " differs between the command's output and the checked-in file"
+						}
+						delete(wm, e.name)
+					}
+					for n := range wm {
+						bad = n + " is in the checked-in file and not produced by the command"
+					}
+					if bad != "" && byName[rel].shippedErr == "" {
+						c.Fail("spec", rel, "hand-edit-or-stale", what, bad, "identical declarations", "the checked-in package is what the repository's generator command produces")
+					}
+				}
+			}
+			os.RemoveAll(tmp)
+		}
 		// every generated.go belongs to a directive
 		filepath.Walk(c.Repo, func(path string, fi os.FileInfo, err error) error {
 			if err == nil && fi.Name() == "generated.go" {
@@ -339,6 +407,6 @@ func init() {
 		if len(pkgs) != 33 {
 			c.Fail("spec", "packages", "count", fmt.Sprint(len(pkgs)), fmt.Sprint(len(pkgs)), "33 (32 generated packages + debug)", "the set of generated packages changed")
 		}
-		c.RequireTags("decl", "package")
+		c.RequireTags("decl", "package", "command")
 	}
 }
